@@ -1,7 +1,7 @@
 (** C06, translator tie: the constant-time word predicates and selects of /repo's CURRENT src/const_choice.rs
     (Src/GenPrim.v, regenerated on every run) decide exactly the order on words / select exactly one operand.
     Statements only; proofs in Src/GenPrimP.v. *)
-From CB Require Import Model.SrcPrelude Model.Word Model.Limbs Src.GenPrim Src.GenPrimP Proofs.WordP Proofs.WordPredP.
+From CB Require Import Model.SrcPrelude Model.Word Model.Limbs Model.AddSub Model.Cmp Src.GenPrim Src.GenPrimP Src.GenUint Src.GenUintP Proofs.WordP Proofs.WordPredP Proofs.LimbsP.
 From Coq Require Import ZArith.
 Open Scope Z_scope.
 
@@ -40,6 +40,32 @@ Theorem C06_src_select_u32 : forall (c : bool) a b, 0 <= a < 2 ^ 32 -> 0 <= b < 
   g_cc_select_u32 (choice_of_bool c) a b = if c then b else a.
 Proof. exact g_cc_select_u32_spec. Qed.
 Print Assumptions C06_src_select_u32.
+
+(** ---- the limb LOOPS of src/uint/cmp.rs (any limb count that is a usize) *)
+Theorem C06_src_uint_order : forall n a b, length a = n -> length b = n -> usz n -> wf a -> wf b ->
+  g_uint_lt n a b = choice_of_bool (eval a <? eval b) /\
+  g_uint_gt n a b = choice_of_bool (eval b <? eval a) /\
+  g_uint_lte n a b = choice_of_bool (eval a <=? eval b).
+Proof. exact g_uint_order_spec. Qed.
+Print Assumptions C06_src_uint_order.
+Theorem C06_src_uint_eq : forall n a b, length a = n -> length b = n -> usz n -> wf a -> wf b ->
+  g_uint_eq n a b = choice_of_bool (eval a =? eval b).
+Proof. exact g_uint_eq_spec. Qed.
+Print Assumptions C06_src_uint_eq.
+Theorem C06_src_uint_select : forall n a b (c : bool), length a = n -> length b = n -> usz n -> wf a -> wf b ->
+  g_uint_select n a b (choice_of_bool c) = spec_select c a b.
+Proof. exact g_uint_select_spec. Qed.
+Print Assumptions C06_src_uint_select.
+Theorem C06_src_uint_is_nonzero : forall n a, length a = n -> usz n -> g_uint_is_nonzero n a = uint_is_nonzero a.
+Proof. exact g_uint_is_nonzero_eq. Qed.
+Print Assumptions C06_src_uint_is_nonzero.
+Theorem C06_src_uint_is_odd : forall n a, g_uint_is_odd n a = uint_is_odd a.
+Proof. exact g_uint_is_odd_eq. Qed.
+Print Assumptions C06_src_uint_is_odd.
+
+Example C06_src_loop_runs : g_uint_lt 2 [5; 1] [4; 2] = 2 ^ 64 - 1 /\ g_uint_eq 2 [5; 1] [5; 1] = 2 ^ 64 - 1 /\
+  g_uint_select 2 [1; 2] [3; 4] (2 ^ 64 - 1) = [3; 4].
+Proof. vm_compute. repeat split. Qed.
 
 Example C06_src_runs : g_cc_from_word_lt 3 (2 ^ 63) = 2 ^ 64 - 1 /\ g_cc_from_word_lt (2 ^ 63) 3 = 0 /\
   g_cc_select_word (2 ^ 64 - 1) 5 9 = 9.
